@@ -39,10 +39,15 @@ def build_implrun():
 
 
 def build_coq(targets=None):
-    if not os.path.exists(os.path.join(COQ, 'Makefile')):
-        sh('coq_makefile -f _CoqProject -o Makefile', cwd=COQ)
-    t = ' '.join(targets) if targets else ''
-    p = sh('timeout 3000 make -j%d %s 2>&1' % (NPROC, t), cwd=COQ, check=False, timeout=3100)
+    import fcntl
+    os.makedirs(WORK, exist_ok=True)
+    with open(os.path.join(WORK, 'coq-make.lock'), 'w') as lock:
+        fcntl.flock(lock, fcntl.LOCK_EX)          # concurrent checks must not run make in the same directory
+        mk, cp = os.path.join(COQ, 'Makefile'), os.path.join(COQ, '_CoqProject')
+        if not os.path.exists(mk) or os.path.getmtime(mk) < os.path.getmtime(cp):
+            sh('coq_makefile -f _CoqProject -o Makefile', cwd=COQ)
+        t = ' '.join(targets) if targets else ''
+        p = sh('timeout 3000 make -j%d %s 2>&1' % (NPROC, t), cwd=COQ, check=False, timeout=3100)
     return p.returncode == 0, p.stdout
 
 
